@@ -785,9 +785,17 @@ def _guard_builder_form(ctx, name: str) -> Tuple[List[str], List[Tuple[str, str]
             idx_names.add(st.targets[0].id)
     type_var = None
     name_var = None
+    lookup_helper = None
     for st in main.body:
         if isinstance(st, ast.Assign) and "data_type_param.get" in unparse(st.value):
             type_var = st.targets[0].id
+        # the lookup may be delegated: TYPE = self.<helper>(ARG.ctype.typename, ...)
+        if isinstance(st, ast.Assign) and isinstance(st.targets[0], ast.Name) and isinstance(st.value, ast.Call) \
+                and isinstance(st.value.func, ast.Attribute) and unparse(st.value.func.value) == "self":
+            h = prog.find_method(ci, st.value.func.attr)
+            if h is not None and "data_type_param.get" in unparse(h[1]):
+                type_var = st.targets[0].id
+                lookup_helper = (h[1], st.value)
         if isinstance(st, ast.Assign) and unparse(st.value) == f"{avar}.ctype.typename.name":
             name_var = st.targets[0].id
 
@@ -818,7 +826,29 @@ def _guard_builder_form(ctx, name: str) -> Tuple[List[str], List[Tuple[str, str]
             txt = "".join(p if isinstance(p, str) else "<" + ren(unparse(p.expr)) + ">" for p in t.parts)
             gs = " & ".join(ren(g) for g, pol in guards_of(st, fn, include_exits=False) if pol)
             appended.append((gs, txt))
+    if lookup_helper is not None:
+        # normal form of the helper's lookup: its own local plays TYPE, its first parameter plays ARG.ctype.typename
+        hf, hcall = lookup_helper
+        hp = [a.arg for a in hf.args.args if a.arg != "self"]
+        hv = next((st.targets[0].id for st in ast.walk(hf) if isinstance(st, ast.Assign) and isinstance(st.targets[0], ast.Name)
+                   and "data_type_param.get" in unparse(st.value)), None)
+        import re as _re2
+
+        def hren(txt):
+            if hv:
+                txt = _re2.sub(rf"\b{hv}\b", "TYPE", txt)
+            if hp:
+                txt = _re2.sub(rf"\b{hp[0]}\.name\b", "NAME", txt)
+                txt = _re2.sub(rf"\b{hp[0]}\b", "ARG.ctype.typename", txt)
+            return _re2.sub(r",\s*is_constructor=[^)]*", "", txt)
+        for st in ast.walk(hf):
+            if isinstance(st, ast.Assign) and hv and isinstance(st.targets[0], ast.Name) and st.targets[0].id == hv and enclosing(st, ast.If) is None:
+                chain.append(hren(unparse(st)))
+            elif isinstance(st, ast.If) and hv and hv in unparse(st.test) and "self." in unparse(st) and enclosing(st, ast.If) is None:
+                chain.append(f"if {hren(unparse(st.test))}: " + "; ".join(hren(unparse(b)) for b in st.body))
     for st in main.body:
+        if lookup_helper is not None:
+            break
         if isinstance(st, ast.Assign) and type_var and st.targets[0].id == type_var if isinstance(st, ast.Assign) and isinstance(st.targets[0], ast.Name) else False:
             chain.append(ren(unparse(st)))
         elif isinstance(st, ast.If) and "not_check_type" in unparse(st.test):
